@@ -52,8 +52,8 @@ CLAIMED["C13"] = dict(engine="cluster", design="§6 C13",
    text="Every sequencer type is driven for real: memory, snowflake, and etcd over an in-memory compare-and-swap store shared by one or two instances with injected errors and restarts; in system mode one or two real masters (raft stub group) serve Assign with any counts while modelled volume servers report the largest key in use, clients write assigned keys, and leadership moves with assignments not yet written. Over the recorded history no two assignments of a volume overlap, no assignment contains a key reported in use or already written, and NextVolumeId never repeats.",
    note=TOPONOTE + " etcd and raft are stubs: real raft safety and real etcd semantics beyond compare-and-swap are out of scope. Interleaving granularity is one handler / sequencer call.")
 CLAIMED["C38"] = dict(engine="volsim", design="§6 C38, §3.3",
-   technique=TECH + "scheduler-chosen operation order and async-batch composition (worker parked at an H2 yield while requests queue), failing batch sync; recorded invoke/return history checked for linearizability with porcupine against a per-key register",
-   text="2-4 simulated clients issue uploads (immediate and batched fsync path), deletes and reads on the real Store/Volume; the scheduler decides who runs next and how many requests pile up before the async worker processes a batch; histories (<= ~30 operations, unique values, final reads included) are checked with porcupine. Reads apply the volume server handler's cookie rule. The race-detector clause of the statement is not decided by this technique.",
+   technique=TECH + "scheduler-chosen operation order and async-batch composition (worker parked at an H2 yield while requests queue), slow-disk stalls inside the critical sections with a second operation issued meanwhile, failing batch sync; recorded invoke/return history checked for linearizability with porcupine against a per-key register",
+   text="2-4 simulated clients issue uploads (immediate and batched fsync path), deletes and reads on the real Store/Volume; the scheduler decides who runs next and how many requests pile up before the async worker processes a batch; a slow-disk fault parks an operation (or the batch worker) inside the data file while another is issued; histories (<= ~30 operations, unique values, deletes reporting whether they removed something, final reads included) are checked with porcupine per key, strictly up to the key's first write in a failed batch. Reads apply the volume server handler's cookie rule. The race-detector clause of the statement is not decided by this technique.",
    note=VOLNOTE + " Return events are stamped when the scheduler observes completion (never earlier than the real return), which can only weaken real-time constraints, never invent them.")
 CLUSTERNOTE = "Trusted: the simulated network (in-memory gRPC connections with gated client interceptors, in-process HTTP round trips), the RaftStub, the single bubble clock (no per-node skew). Real master and volume server objects run unmodified; TCP, kernel and real raft are not simulated. Partitions are per destination."
 CLAIMED["C14"] = dict(engine="cluster", design="§6 C14, §3.4",
